@@ -129,6 +129,8 @@ class Setup:
                   lambda: f.get_magnitude_index(numpy.array([mid, low])),
                   lambda: region.get_index_of([inside[3], far_lon], [inside[2], far_lat]),
                   lambda: f.target_event_rates(CSEPCatalog(data=[inside, outside, inside], region=region)),
+                  lambda: f.target_event_rates(CSEPCatalog(data=[inside, outside], region=region), scale=True),
+                  lambda: f.target_event_rates(CSEPCatalog(data=[inside, ("low",) + inside[1:5] + (low,)], region=region), scale=True),
                   lambda: CSEPCatalog(data=[inside, outside], region=region).spatial_magnitude_counts(),
                   lambda: CSEPCatalog(data=[outside, inside], region=region).spatial_counts(),
                   lambda: CSEPCatalog(data=[outside, inside], region=region).spatial_event_probability()):
